@@ -464,7 +464,7 @@ def obs_tokens(toks):
     return [[int(t.catcode), [ord(ch) for ch in str(t)]] for t in toks if t is not None]
 
 
-ELEM_CLASS = {'bgroup': 0, 'egroup': 1, 'def_': 2, 'gdef': 3, 'relax': 4, 'else_': 5, 'fi': 6}
+ELEM_CLASS = {'bgroup': 0, 'egroup': 1, 'def_': 2, 'gdef': 3, 'relax': 4, 'else_': 5, 'fi': 6, 'newcommand': 9, 'renewcommand': 10, 'let': 11}
 
 
 def run_engine(case):
@@ -499,6 +499,9 @@ def run_engine(case):
             means.append([3])
         elif isinstance(c, type) and issubclass(c, plasTeX.Definition):
             means.append([0, obs_tokens(c.args or []), obs_tokens(c.definition or [])])
+        elif isinstance(c, type) and issubclass(c, plasTeX.NewCommand):
+            # a negative [nargs] behaves like 0 (range(nargs) is empty); the Model keeps a natural number
+            means.append([4, max(int(c.nargs), 0), ([obs_tokens(c.opt)] if c.opt is not None else []), obs_tokens(c.definition or [])])
         elif isinstance(c, type) and issubclass(c, plasTeX.UnrecognizedMacro):
             means.append([2])
         else:
